@@ -43,8 +43,9 @@ PROPS["C10"] = dict(
                  timeout={"quick": 300, "thorough": 2700})],
     nontrivial=lambda r: "chain:0" not in (r.get("tags") or []),
     rule="one case per extends chain: child levels x per-block definition kind (absent/text/empty/text+parent()/parent()/"
-         "parent() twice/override that nests a definition of the other block) x base kinds x 6 base layouts (top, nested, loop, if, "
-         "if-false, layout that includes another chain with the same block names) + dynamic parent name; non-trivial = chain length >= 1",
+         "parent() twice/override that nests a definition of the other block) x base kinds x 9 base layouts (top, nested, loop, loop in a "
+         "loop, if, if-false, apply, spaceless, layout that includes another chain with the same block names) + dynamic and computed parent "
+         "names, the extends tag in 8 places (also blocks in never-taken branches), sets along the chain, engine globals; non-trivial = chain length >= 1",
     assumptions=["reference semantics TwigSem.tla (LevelDefining/BlockDef/parent()) is the oracle",
                  "extending templates contain only extends, text and blocks at top level"],
 )
@@ -323,11 +324,14 @@ PROPS["C20"] = dict(
                  simulate={"quick": 12, "thorough": 250}, depth=11, workers=1, timeout={"quick": 300, "thorough": 1500},
                  transform=_c20_floods)],
     nontrivial=lambda r: True,
-    rule="every lookup history of length 2 (quick) / 3 (thorough) over 15 objects (6 struct shapes incl. embedded structs at depth 1 and 2, "
-         "shadowing, value/pointer methods, unexported field; pointers to them; 3 Go map types) x 9 names, plus TLC random walks of 10 "
+    rule="every lookup history of length 2 over 41 objects (14 struct shapes incl. embedded structs at depth 1..4, shadowing, value/pointer "
+         "methods, unexported field and unexported embedded type, 131 fields, an unnamed struct type, names outside ASCII; pointers to "
+         "them; 5 Go map types) x 21 names (quick); every history of length 3 over 8 shapes x 7 names (thorough); plus TLC random walks of 10 "
          "lookups, replayed with the real attribute cache set to the model's capacity 2 through the verif hook; sampled histories are "
-         "repeated at the production capacity with floods of 1100 fresh (type, name) pairs between the lookups; a shape whose pointer-"
-         "receiver method points into its receiver (two instances); every history ends with a joint render that keeps all results alive",
+         "repeated at the production capacity with floods of 1100 fresh (type, name) pairs between the lookups, with every lookup made "
+         "20 times, with the looked-up pairs surviving an eviction, written through a list element / map entry / parentheses, and with "
+         "the first lookup made below a sandboxed include; a shape whose pointer-receiver method points into its receiver (two "
+         "instances); every history ends with a joint render that keeps all results alive",
     assumptions=["AttrCache.tla: TLC checks CacheUnobservable for every victim choice; deviations KeyWithoutType / FirstIndexOnly must violate it",
                  "pointer-receiver methods are only looked up on pointers; a name that denotes an embedded struct itself is not looked up"],
 )
